@@ -172,7 +172,7 @@ LEAN_TYPE = {'Int': 'Int', 'Str': 'Str', 'Bytes': 'Str', 'Bool': 'Bool', 'TD': '
              'PyDate': 'PyDate', 'PyDateTime': 'PyDateTime', 'PyTime': 'PyTime', 'None': 'Unit', 'StrList': 'List Str',
              'Truth': 'Bool', 'Char': 'Char', 'OptInt': 'Option Int', 'Builder': 'Str', 'IntList': 'List Int',
              'Unbound:Int': 'Option Int', 'D': 'Trig', 'OptD': 'Option Trig', 'TDS': 'Int', 'OptTDS': 'Option Int', 'DList': 'List Trig',
-             'ATList': 'List AT', 'Comp': 'Comp', 'CompList': 'List Comp', 'Fn:Comp:Bool': 'Comp → Bool', 'Object': 'Unit', 'IV': 'PyIV', 'Vals': 'PyVals', 'Val': 'Val', 'ValList': 'List Val',
+             'ATList': 'List AT', 'Comp': 'Comp', 'CompList': 'List Comp', 'Fn:Comp:Bool': 'Comp → Bool', 'Object': 'Unit', 'U:PyDDD': 'PyDDD', 'IV': 'PyIV', 'Vals': 'PyVals', 'Val': 'Val', 'ValList': 'List Val',
              'Store': 'CDict.Store V', 'StepOut': 'CDict.Store V × CDict.Out V', 'V': 'V', 'OptV': 'Option V', 'Msg': 'Unit', 'ExcVal': 'Exc', 'Item': 'PyItem', 'ItemList': 'List PyItem', 'EntryList': 'List Entry'}
 
 
@@ -299,6 +299,12 @@ TARGETS = [
     Target('prop.py', 'vMonth', 'to_ical', 'vMonth_to_ical', 'Int', {'leap': ('leap', 'Bool')}, {}, False),
     Target('prop.py', 'vBoolean', 'to_ical', 'vBoolean_to_ical', 'Int', {}, {}, False),
     Target('prop.py', 'vInt', 'to_ical', 'vInt_to_ical', 'Int', {}, {}, False),
+    Target('prop.py', 'vDDDTypes', 'to_ical', 'vDDDTypes_to_ical', None, {'dt': ('dt', 'U:PyDDD')},
+           {'vPeriod(dt).to_ical()': ('pexpr', 'period_to_ical', ['dt'], 'Bytes'),
+            'vTime(dt).to_ical()': ('expr', 'time_to_ical', ['dt'], 'Bytes')}, False, 'enc', None, None, 'Bytes'),
+    Target('prop.py', 'vPeriod', 'to_ical', 'vPeriod_to_ical', None,
+           {'by_duration': ('by_duration', 'Int'), 'start': ('start', 'U:PyDDD'), 'end': ('end_', 'U:PyDDD'), 'duration': ('duration', 'TD')},
+           {}, False, 'enc', None, None, 'Bytes'),
     # ---- decoders
     Target('prop.py', 'vDate', 'from_ical', 'vDate_from_ical', None, {}, {}, False, 'dec', {'ical': 'Str'}),
     Target('prop.py', 'vTime', 'from_ical', 'vTime_from_ical', None, {}, {}, False, 'dec', {'ical': 'Str'}),
@@ -310,6 +316,16 @@ TARGETS = [
            {'DURATION_REGEX.match': ('match', 'm', 'DURATION_REGEX')}, False, 'dec', {'ical': 'Str'}),
     Target('prop.py', 'vInt', 'from_ical', 'vInt_from_ical', None, {}, {'cls': ('ctor_int',)}, False, 'dec',
            {'ical': 'Str'}),
+    # wave 6: the typed dispatchers.  What vDDDTypes holds is the union `PyDDD` (date | datetime | time | timedelta | a pair);
+    # vDDDTypes.from_ical and vPeriod.from_ical call each other: each takes the other as a function parameter
+    Target('prop.py', 'vDDDTypes', 'from_ical', 'vDDDTypes_from_ical', None, {},
+           {'vPeriod.from_ical': ('pfun', 'period_from_ical', ['Str'], 'Tuple:PyDDD × PyDDD', {'timezone': 'None'}),
+            'tzp.localize_utc': ('fun', 'localize_utc', ['PyDateTime'], 'PyDateTime'),
+            'DURATION_REGEX.match': ('match', 'm', 'DURATION_REGEX')}, False, 'dec',
+           {'ical': 'Str', 'timezone': 'None'}, None, 'U:PyDDD'),
+    Target('prop.py', 'vPeriod', 'from_ical', 'vPeriod_from_ical', None, {},
+           {'vDDDTypes.from_ical': ('pfun', 'ddd_from_ical', ['Str'], 'U:PyDDD', {'timezone': 'None'})}, False, 'dec',
+           {'ical': 'Str', 'timezone': 'None'}),
     # ---- parser helpers
     Target('parser.py', None, 'dquote', 'dquote', None, {}, {'QUOTABLE.search': ('pred', 'quotable_search')}, False,
            'parser', {'val': 'Str'}),
@@ -486,6 +502,33 @@ class Widen(Exception):
         self.name, self.typ = name, typ
 
 
+# union types `U:<Name>`: member type -> constructor; (Python classes an instance test names -> the constructors it accepts)
+UNIONS = {'PyDDD': {'members': {'PyDate': 'date', 'PyDateTime': 'dt', 'PyTime': 'time', 'TD': 'dur'},
+                    'pair': 'period',       # a tuple display of two values of the union
+                    'classes': {'datetime': ['dt'], 'date': ['date', 'dt'], 'time': ['time'], 'timedelta': ['dur'], 'tuple': ['period']}}}
+
+
+def others_rebind(func, name):
+    """is the parameter `name` assigned anywhere in the function"""
+    return any(isinstance(n, ast.Name) and n.id == name and isinstance(n.ctx, ast.Store) for n in ast.walk(func))
+
+
+def to_union(v, want):
+    """a value of a member type (or a pair of union values) as a value of the union `want` = 'U:<Name>', else None"""
+    u = UNIONS.get(want[2:]) if want.startswith('U:') else None
+    if u is None:
+        return None
+    if v.type in u['members']:
+        return V(f'({want[2:]}.{u["members"][v.type]} {v.lean})', want, None)
+    if v.type == 'Tuple' and len(v.elts) == 2 and 'pair' in u:
+        a, b = (x if x.type == want else to_union(x, want) for x in v.elts)
+        if a is not None and b is not None:
+            return V(f'({want[2:]}.{u["pair"]} {a.lean} {b.lean})', want, None)
+    if v.type == f'Tuple:{want[2:]} × {want[2:]}' and 'pair' in u:
+        return V(f'({want[2:]}.{u["pair"]} {v.lean}.1 {v.lean}.2)', want, None)
+    return None
+
+
 FIELD_LNAME = {}       # `self__<attr>` (an attribute of self that the function being translated writes) -> its Lean name
 
 
@@ -575,6 +618,7 @@ class Fn:
     def __init__(self, target, cls_node, func, registry, modnames=None):
         self.t, self.cls, self.func, self.registry = target, cls_node, func, registry
         self.pairtarget = {}
+        self.excluded = {}
         self.modnames = modnames or {}
         self.qual = f'{target.file[:-3]}.' + (f'{target.cls}.' if target.cls else '') + target.fn
         self.used = []            # parameters actually referenced, in order of first use
@@ -650,9 +694,19 @@ class Fn:
             typ, what = env[node.args[0].id].type, node.args[1].id
             if what == 'str' and 'str' not in self.modnames and typ in ('None', 'Str'):
                 return typ == 'Str'
-            if what == 'cls' and self.cls is not None and not self.cls.bases and typ in ('None', 'Str', 'Int'):
-                return False        # a str / int / None is not an instance of a class that derives from object only
+            if what == 'cls' and self.cls is not None and typ in ('None', 'Str', 'Int') and self.plain_class(self.cls):
+                return False        # a str / int / None is not an instance of a class whose bases (in this file) end in object
         return None
+
+    def plain_class(self, c, seen=0):
+        """every base of the class is a class of this file with that property (so: no builtin among its ancestors)"""
+        if seen > 6:
+            return False
+        for b in c.bases:
+            d = next((n for n in self.tree.body if isinstance(n, ast.ClassDef) and isinstance(b, ast.Name) and n.name == b.id), None)
+            if d is None or not self.plain_class(d, seen + 1):
+                return False
+        return True
 
     def builtin_method_ok(self, node, *dunder):
         """`self` is used as the builtin it derives from: the class must derive from exactly that builtin and
@@ -788,6 +842,7 @@ class Fn:
             return V('()', whole[3], None)      # an external value that the translated code never looks at
         if whole is not None and whole[0] in ('expr', 'pexpr'):        # an expression that stays external, as a whole
             args = [self.expr(ast.parse(n, mode='eval').body, env) for n in whole[2]]
+            args = [x for a in args for x in (a.elts if a.type == 'Tuple' and a.elts and all(e.lean for e in a.elts) else [a])]   # a pair: its parts
             if any(a.type.startswith('Opt:') for a in args):
                 self.fail(node, f'`{ast.unparse(node)[:50]}` on a value that may be None')
             rt = lean_type(whole[3])
@@ -1054,6 +1109,11 @@ class Fn:
             if e is not None and e[0] == 'contains' and b.type == e[2]:     # `'KEY' in obj` on an opaque object
                 f = self.param(e[1], f'{lean_type(e[2])} → Str → Bool')
                 return V(f'({"!" if k == "NotIn" else ""}({f.lean} {b.lean} {a.lean}))', 'Bool', None)
+        if k in ('In', 'NotIn') and one(a) and b.type == 'Str':       # a one-character literal in a str
+            return V(f'({neg}({b.lean}.contains {X.lchar(next(iter(a.lits)))}))', 'Bool', None)
+        if k in ('In', 'NotIn') and a.type == 'Int' and b.type == 'Tuple' and b.elts and all(e.type == 'Int' for e in b.elts):
+            lst = '([' + ', '.join(e.lean for e in b.elts) + '] : List Int)'
+            return V(f'({neg}{lst}.contains {a.lean})', 'Bool', None)
         if a.type == 'Str' and b.type == 'Tuple' and k in ('In', 'NotIn') and all(e.lits is not None for e in b.elts):
             lst = '([' + ', '.join(e.lean for e in b.elts) + '] : List Str)'
             return V(f'({"" if k == "In" else "!"}{lst}.contains {a.lean})', 'Bool', None)
@@ -1161,6 +1221,118 @@ class Fn:
                 self.fail(node, f'argument `{p}` of `{ast.unparse(node)[:40]}` is a {v.type}, the callee takes a {typ}')
             out.append(v)
         return out
+
+    PYCLASS = {'PyDateTime': 'datetime', 'PyDate': 'date', 'PyTime': 'time', 'TD': 'timedelta'}
+
+    def call_on_new(self, node, ctor, mname, env):
+        """`Cls(x).m()`: m is a translated method of Cls that reads `self.<attr>`; the constructor must store its first
+        argument there unchanged, and may otherwise only guard its type (`if not isinstance(arg, T): raise ..`, T accepting
+        x) and assign other attributes (those statements are taken not to raise: noted in the comment)"""
+        cname = ctor.func.id
+        d = self.registry[(cname, mname)]
+        ct = next(t for t in TARGETS if (t.cls, t.fn) == (cname, mname) and t.group == self.t.group and t.lean == d.lean)
+        cdef = next(n for n in self.tree.body if isinstance(n, ast.ClassDef) and n.name == cname)
+        init = next((n for n in cdef.body if isinstance(n, ast.FunctionDef) and n.name == '__init__'), None)
+        if init is None or len(ctor.args) != 1 or ctor.keywords or init.args.vararg or init.args.kwarg \
+                or len(init.args.args) - len(init.args.defaults) > 2:
+            self.fail(node, f'`{ast.unparse(ctor)[:40]}`: not a constructor call with exactly the one required argument')
+        x = self.expr(ctor.args[0], env)
+        pname = init.args.args[1].arg
+        stored, others = [], []
+        for st in init.body:
+            if isinstance(st, ast.Expr) and isinstance(st.value, ast.Constant):
+                continue
+            if isinstance(st, ast.Assign) and len(st.targets) == 1 and isinstance(st.targets[0], ast.Attribute) \
+                    and ast.unparse(st.targets[0].value) == 'self' and isinstance(st.value, ast.Name) and st.value.id == pname \
+                    and not others_rebind(init, pname):
+                stored.append(st.targets[0].attr)
+                continue
+            if isinstance(st, ast.If) and not st.orelse and len(st.body) == 1 and isinstance(st.body[0], ast.Raise) \
+                    and isinstance(st.test, ast.UnaryOp) and isinstance(st.test.op, ast.Not) and isinstance(st.test.operand, ast.Call) \
+                    and ast.unparse(st.test.operand.func) == 'isinstance' and ast.unparse(st.test.operand.args[0]) == pname:
+                cl = st.test.operand.args[1]
+                names = [ast.unparse(c) for c in (cl.elts if isinstance(cl, ast.Tuple) else [cl])]
+                if x.type.startswith('U:'):
+                    need = set(UNIONS[x.type[2:]]['classes'])
+                    ok = need <= set(names)
+                else:
+                    py = self.PYCLASS.get(x.type)
+                    ok = py in names or (py == 'datetime' and 'date' in names)
+                if not ok:
+                    self.fail(node, f'`{ast.unparse(ctor)[:40]}`: the constructor guards its argument with {names}, the value is a {x.type}')
+                continue
+            if any(isinstance(n, (ast.Raise, ast.Return)) for n in ast.walk(st)):
+                self.fail(node, f'`{cname}.__init__` raises / returns outside a type guard of its argument (line {st.lineno})')
+            others.append(ast.unparse(st).splitlines()[0][:60])
+        want = [k for k in ct.self_attrs if '.' not in k]
+        if len(want) != 1 or want[0] not in stored:
+            self.fail(node, f'`{cname}.__init__` does not store its argument in self.{want} unchanged')
+        if x.type != ct.self_attrs[want[0]][1]:
+            self.fail(node, f'`{ast.unparse(ctor)[:40]}`: a {x.type} where {cname}.{mname} reads a {ct.self_attrs[want[0]][1]}')
+        if others:
+            note = f'`{cname}(..)`: the other statements of the constructor ({"; ".join(others)}) are taken not to raise'
+            if note not in self.notes:
+                self.notes.append(note)
+        names = [ct.self_attrs[want[0]][0]]
+        rest = []
+        for p in d.params:
+            if p[0] == names[0]:
+                rest.append(x.lean)
+                continue
+            origin = next(((k, e) for k, e in ct.externals.items() if not isinstance(e[0], str) and e[1] == p[0]), None)
+            if origin is None:
+                rest.append(self.param(*p).lean)
+            else:       # f(self.<attr>) in the callee: a function of the value here
+                k, e = origin
+                if list(e[0]) != [want[0]] and list(e[0]) != ['self.' + want[0]]:
+                    self.fail(node, f'`{k}({", ".join(e[0])})` in {cname}.{mname} is not applied to self.{want[0]}')
+                f = self.param(p[0] + '_of', f'{lean_type(x.type)} → {lean_type(p[1])}')
+                rest.append(f'({f.lean} {x.lean})')
+        lean = ' '.join([d.lean] + rest)
+        return self.hoist(node, lean, d.rtype) if d.monadic else V(f'({lean})', d.rtype, None)
+
+    def call_class_method(self, node, cname, mname, env):
+        """`Cls.m(..)`: a classmethod / staticmethod of another class of the file, translated earlier.  Its value
+        parameters that stand for `REGEX.match(<its argument>)` or `f(<its arguments>)` become function parameters here,
+        applied to the actual arguments"""
+        d = self.registry[(cname, mname)]
+        ct = next(t for t in TARGETS if (t.cls, t.fn) == (cname, mname) and t.group == self.t.group and t.lean == d.lean)
+        decos = [ast.unparse(x) for x in d.func.decorator_list]
+        if decos not in (['classmethod'], ['staticmethod']):
+            self.fail(node, f'{cname}.{mname} is not a classmethod / staticmethod')
+        shim = d.func
+        if decos == ['staticmethod']:       # bound_args drops the first parameter (self / cls)
+            shim = ast.FunctionDef(name=d.func.name, args=ast.arguments(posonlyargs=[], args=[ast.arg(arg='cls')] + d.func.args.args,
+                                   vararg=d.func.args.vararg, kwonlyargs=d.func.args.kwonlyargs, kw_defaults=d.func.args.kw_defaults,
+                                   kwarg=d.func.args.kwarg, defaults=d.func.args.defaults), body=d.func.body, decorator_list=[])
+        args = self.bound_args(node, shim, d.argtypes, env)
+        names = list((ct.args or {}))
+        real = [a for a, ty in zip(args, d.argtypes) if ty not in ('None', 'Object')]
+        if [a.type for a in real] != [p[1] for p in d.params[:d.nargs]]:
+            self.fail(node, f'call {cname}.{mname}(...): argument types {[a.type for a in real]}')
+        rest = []
+        for p in d.params[d.nargs:]:
+            origin = next(((k, e) for k, e in ct.externals.items() if (isinstance(e[0], str) and e[0] == 'match' and e[1] == p[0])
+                           or (not isinstance(e[0], str) and e[1] == p[0])), None)
+            if origin is None:
+                rest.append(self.param(*p).lean)
+                continue
+            k, e = origin
+            if isinstance(e[0], str):      # REGEX.match(x): x must be an argument of the callee
+                calls = [n for n in ast.walk(d.func) if isinstance(n, ast.Call) and ast.unparse(n.func) == k]
+                an = [ast.unparse(c.args[0]) for c in calls if len(c.args) == 1]
+                if len(calls) != 1 or an[0] not in names:
+                    self.fail(node, f'call {cname}.{mname}(...): `{k}(..)` in the callee is not applied to one of its arguments')
+                f = self.param(p[0] + '_of', f'Str → {lean_type(p[1])}')
+                rest.append(f'({f.lean} {args[names.index(an[0])].lean})')
+            else:                           # f(a, b): the callee's arguments by name
+                if any(a not in names for a in e[0]):
+                    self.fail(node, f'call {cname}.{mname}(...): `{k}({", ".join(e[0])})` in the callee is not applied to its arguments')
+                acts = [args[names.index(a)] for a in e[0]]
+                f = self.param(p[0] + '_of', ' → '.join([lean_type(a.type) for a in acts] + [lean_type(p[1])]))
+                rest.append('(' + ' '.join([f.lean] + [a.lean for a in acts]) + ')')
+        lean = ' '.join([d.lean] + [a.lean for a in real] + rest)
+        return self.hoist(node, lean, d.rtype) if d.monadic else V(f'({lean})', d.rtype, None)
 
     def none_is_error(self, node, v):
         """an optional date / datetime handed to a translated method that takes the object: None makes the callee raise
@@ -1318,6 +1490,19 @@ class Fn:
             self.pre.append(f'let {r} : {typ} ← ' + ' '.join([f.lean] + [a.lean for a in args]))
             n = len(e[3])
             return V('', 'Tuple', None, [V(r + '.2' * i + ('.1' if i < n - 1 else ''), t, None) for i, t in enumerate(e[3])])
+        if isinstance(fn, ast.Attribute) and isinstance(fn.value, ast.Name) and fn.value.id not in env and callee not in self.t.externals \
+                and self.modnames.get(fn.value.id) == 'def' and (fn.value.id, fn.attr) in self.registry:
+            return self.call_class_method(node, fn.value.id, fn.attr, env)
+        if isinstance(fn, ast.Attribute) and isinstance(fn.value, ast.Call) and isinstance(fn.value.func, ast.Name) \
+                and callee not in self.t.externals and ast.unparse(node) not in self.t.externals \
+                and fn.value.func.id not in env and self.modnames.get(fn.value.func.id) == 'def' \
+                and (fn.value.func.id, fn.attr) in self.registry and not node.args and not node.keywords:
+            return self.call_on_new(node, fn.value, fn.attr, env)
+        if isinstance(fn, ast.Attribute) and fn.attr == 'startswith' and len(node.args) == 1 and not node.keywords:
+            lits = node.args[0].elts if isinstance(node.args[0], ast.Tuple) else [node.args[0]]
+            x = self.expr(fn.value, env)
+            if x.type == 'Str' and lits and all(isinstance(l, ast.Constant) and isinstance(l.value, str) for l in lits):
+                return V('(' + ' || '.join(f'startsWith {x.lean} {X.lstr(l.value)}' for l in lits) + ')', 'Bool', None)
         if isinstance(fn, ast.Attribute) and fn.attr == 'upper' and not node.args and not node.keywords:
             x = self.expr(fn.value, env)
             if x.type == 'Str':     # ASCII upper-casing (the models' convention; Python's is Unicode)
@@ -1405,7 +1590,8 @@ class Fn:
             if [a.type for a in args] != want:
                 self.fail(node, f'external call {callee}: argument types {[a.type for a in args]}, declared {want}')
             rt = 'None' if ext[0] == 'proc' else ext[3]
-            f = self.param(ext[1], ' → '.join(lean_type(t) for t in want) + f' → Py {lean_type(rt)}')
+            rtl = lean_type(rt)
+            f = self.param(ext[1], ' → '.join(lean_type(t) for t in want) + f' → Py {"(" + rtl + ")" if " " in rtl else rtl}')
             return self.hoist(node, ' '.join([f.lean] + [a.lean for a in args]), rt)
         if ext is not None and isinstance(ext[0], str) and (not isinstance(fn, ast.Name) or fn.id not in env):
             if node.keywords:
@@ -1541,6 +1727,8 @@ class Fn:
                 return V(f'({v.lean}.length : Int)', 'Int', None)
             if v.type == 'Str':
                 return V(f'(strLen {v.lean})', 'Int', None)
+            if v.type == 'Tuple':
+                return V(f'({len(v.elts)} : Int)', 'Int', None)
             self.fail(node, f'len() of a value of type {v.type}')
         if fn.id in ('str', 'int', 'abs') and len(node.args) == 1 and not isinstance(node.args[0], ast.Starred):
             arg = node.args[0]
@@ -1660,6 +1848,11 @@ class Fn:
                     v = V(f'(PyResult.one {v.lean})', self.t.ret, None)
                 elif v.type == 'List:' + rt:
                     v = V(f'(PyResult.many {v.lean})', self.t.ret, None)
+            if (self.t.ret or '').startswith('U:') and v.type != self.t.ret:      # a member of the union the function returns
+                w = to_union(v, self.t.ret)
+                if w is None:
+                    self.fail(s, f'return of a {v.type} from a function that returns {self.t.ret}')
+                v = w
             if v.type == 'Tuple' and all(e.type != 'Tuple' for e in v.elts):       # a tuple display of values
                 self.rtype_elts = [e.type for e in v.elts]
                 self.rtype_lean = ' × '.join(lean_type(e.type) for e in v.elts)
@@ -1789,6 +1982,10 @@ class Fn:
         if isinstance(s, ast.Assign) and len(s.targets) == 1 and isinstance(s.targets[0], ast.Tuple) \
                 and all(isinstance(t, ast.Name) for t in s.targets[0].elts):
             v = self.expr(s.value, env)      # the right side is evaluated first
+            if v.type in ('StrList',) + tuple(t for t in [v.type] if t.startswith('List:')) and len(s.targets[0].elts) == 2:
+                et = 'Str' if v.type == 'StrList' else v.type[5:]      # `a, b = xs`: ValueError unless exactly two elements
+                r = self.hoist(s, f'listUnpack2 {v.lean}', f'Tuple:{lean_type(et)} × {lean_type(et)}')
+                v = V('', 'Tuple', None, [V(r.lean + '.1', et, None), V(r.lean + '.2', et, None)])
             if v.type != 'Tuple' or len(v.elts) != len(s.targets[0].elts):
                 self.fail(s, f'unpacking of `{ast.unparse(s.value)[:40]}`')
             vals = list(v.elts)
@@ -2015,7 +2212,82 @@ class Fn:
             lines.append(line)
         return lines + self.block(rest, env, tail)
 
+    def union_test(self, node, env):
+        """`isinstance(x, C)` / `isinstance(x, (C1, C2))` on a variable of a union type that is not yet known to be of one
+        member: (the variable, the constructors still possible that the test accepts, those still possible)"""
+        if not (isinstance(node, ast.Call) and isinstance(node.func, ast.Name) and node.func.id == 'isinstance'
+                and 'isinstance' not in self.modnames and 'isinstance' not in env and len(node.args) == 2 and not node.keywords
+                and isinstance(node.args[0], ast.Name) and node.args[0].id in env):
+            return None
+        x = env[node.args[0].id]
+        if not x.type.startswith('U:') or x.lean in self.narrow or not re.fullmatch(r"[A-Za-z_][\w']*", x.lean):
+            return None
+        u = UNIONS[x.type[2:]]
+        names = node.args[1].elts if isinstance(node.args[1], ast.Tuple) else [node.args[1]]
+        acc = []
+        for n in names:
+            if not (isinstance(n, ast.Name) and n.id in u['classes']):
+                self.fail(node, f'instance test of a {x.type[2:]} for `{ast.unparse(n)}`')
+            if n.id != 'tuple' and self.modnames.get(n.id) != 'datetime.' + n.id:
+                self.fail(node, f'`{n.id}` is not the class of the datetime module')
+            acc += [c for c in u['classes'][n.id] if c not in acc]
+        allc = list(u['members'].values()) + ([u['pair']] if 'pair' in u else [])
+        left = [c for c in allc if c not in self.excluded.get(x.lean, ())]
+        return x, [c for c in left if c in acc], left
+
+    def union_payload(self, x, ctor, v):
+        u = UNIONS[x.type[2:]]
+        if ctor == u.get('pair'):
+            return f'.{ctor} {v}a {v}b', V('', 'Tuple', None, [V(f'{v}a', x.type, None), V(f'{v}b', x.type, None)])
+        return f'.{ctor} {v}', V(v, next(t for t, c in u['members'].items() if c == ctor), None)
+
     def if_(self, s, rest, env, tail):
+        if isinstance(s.test, ast.BoolOp) and isinstance(s.test.op, ast.And) and self.union_test(s.test.values[0], env) is not None:
+            # `isinstance(x, C) and B`: B is evaluated knowing what x is
+            vals = s.test.values
+            second = vals[1] if len(vals) == 2 else ast.copy_location(ast.BoolOp(op=ast.And(), values=vals[1:]), s.test)
+            inner = ast.If(test=second, body=s.body, orelse=s.orelse)
+            outer = ast.If(test=vals[0], body=[inner], orelse=s.orelse)
+            for n in (inner, outer):
+                ast.copy_location(n, s)
+                n.end_lineno = s.end_lineno
+            return self.if_(outer, rest, env, tail)
+        neg_test = isinstance(s.test, ast.UnaryOp) and isinstance(s.test.op, ast.Not)
+        ut = self.union_test(s.test.operand if neg_test else s.test, env)
+        if ut is not None:
+            x, acc, left = ut
+            yes, no = (s.orelse, s.body) if neg_test else (s.body, s.orelse)
+            ind = lambda ls: ['  ' + l for l in ls]   # noqa: E731
+            if not acc:      # decided by what is already known of x
+                self.notes.append(f'line {s.lineno}: `{ast.unparse(s.test)}` is {neg_test} here (of {x.lean} it is known '
+                                  f'that it is one of: {", ".join(left)})')
+                return self.block(no + rest, env, tail)
+            do = ' do' if self.monadic else ''
+            old_ex = dict(self.excluded)
+            pre = self.take_pre()
+            try:
+                self.excluded[x.lean] = set(self.excluded.get(x.lean, ())) | set(acc)
+                nb = self.block(no + rest, env, tail)
+            finally:
+                self.excluded = old_ex
+            if len(acc) == 1:
+                self.fresh += 1
+                v = f"n{self.fresh}'"
+                pat, val = self.union_payload(x, acc[0], v)
+                old = dict(self.narrow)
+                self.narrow[x.lean] = val
+                try:
+                    yb = self.block(yes + rest, env, tail)
+                finally:
+                    self.narrow = old
+                return pre + [f'match {x.lean} with', f'| {pat} =>{do}'] + ind(yb) + [f'| _ =>{do}'] + ind(nb)
+            try:
+                self.excluded[x.lean] = set(self.excluded.get(x.lean, ())) | {c for c in left if c not in acc}
+                yb = self.block(yes + rest, env, tail)
+            finally:
+                self.excluded = old_ex
+            pats = ' | '.join('.' + c + (' _ _' if c == UNIONS[x.type[2:]].get('pair') else ' _') for c in acc)
+            return pre + [f'match {x.lean} with', f'| {pats} =>{do}'] + ind(yb) + [f'| _ =>{do}'] + ind(nb)
         st = self.static(s.test, env)
         if st is not None:      # decided by a specialised argument: only the branch taken is translated
             skipped = s.orelse if st else s.body
@@ -2741,7 +3013,7 @@ def translate(src_dir, group='enc'):
         rdoc = 'a tuple' if fn.rtype.startswith('Tuple') else RETURN_DOC.get(fn.rtype, fn.rtype.lower())
         out.append(f'    Returns {rdoc}{"; can raise (Py)" if fn.monadic else ""}. -/')
         sig = ''.join(f' ({p} : {lean_type(ty)})' for p, ty in fn.used)
-        opaque = sorted({e[3] for e in t.externals.values() if isinstance(e[0], str) and e[0] in ('pfun', 'expr') and e[3] not in LEAN_TYPE and e[3] != 'Object'})
+        opaque = sorted({e[3] for e in t.externals.values() if isinstance(e[0], str) and e[0] in ('pfun', 'expr') and e[3] not in LEAN_TYPE and e[3] != 'Object' and ':' not in e[3]})
         opaque = sorted(set(opaque) | {o for o in ('AT',) if re.search(r'\b' + o + r'\b', sig)})
         if group in ('parse', 'alarm'):
             opaque = opaque_types([lean_type(ty) for _, ty in fn.used] + [fn.rtype_lean or lean_type(fn.rtype)])
